@@ -15,6 +15,8 @@ fn usage() -> ! {
 }
 
 fn main() {
+    // fix this process tree's loopback address before any thread exists
+    let _ = verif::util::lo();
     let args: Vec<String> = std::env::args().collect();
     if args.len() < 2 {
         usage();
@@ -83,7 +85,7 @@ fn main() {
                 .ok()
                 .and_then(|s| s.parse::<u64>().ok())
                 .unwrap_or(match tier {
-                    Tier::Quick => 1500,
+                    Tier::Quick => 900,
                     Tier::Thorough => 6 * 3600,
                 });
             {
@@ -91,6 +93,9 @@ fn main() {
                 std::thread::spawn(move || {
                     std::thread::sleep(std::time::Duration::from_secs(budget));
                     rep.mark_inconclusive(format!("harness time budget of {budget} s exceeded"));
+                    for line in engine::running::long_running(20) {
+                        engine::diag(&format!("  still {line}"));
+                    }
                     let code = rep.finish(tier, seed as i64 as u64);
                     std::process::exit(if code == 1 { 1 } else { 2 });
                 });
